@@ -8,7 +8,6 @@ use libtw2_net::connection7 as c7;
 use libtw2_net::{Timeout, Timestamp};
 use serde::{Deserialize, Serialize};
 use std::collections::HashSet;
-use std::convert::Infallible;
 
 pub const CALL_FUEL: i64 = 50_000;
 pub const CONNECT_PACKET: &[u8; 12] = b"\x10\x00\x00\x01TKEN\xff\xff\xff\xff";
@@ -26,6 +25,9 @@ pub struct SimCb {
     pub rnd_state: u64,
     pub time_calls: u64,
     pub random_calls: u64,
+    /// injected fault: the send callback reports an error and nothing goes out
+    pub fail_sends: bool,
+    pub send_failures: u64,
 }
 
 impl SimCb {
@@ -37,6 +39,8 @@ impl SimCb {
             rnd_state: seed,
             time_calls: 0,
             random_calls: 0,
+            fail_sends: false,
+            send_failures: 0,
         }
     }
     fn fill(&mut self, buffer: &mut [u8]) {
@@ -63,12 +67,16 @@ impl SimCb {
 macro_rules! impl_cb {
     ($m:ident) => {
         impl $m::Callback for SimCb {
-            type Error = Infallible;
+            type Error = ();
             fn secure_random(&mut self, buffer: &mut [u8]) {
                 self.fill(buffer)
             }
-            fn send(&mut self, buffer: &[u8]) -> Result<(), Infallible> {
+            fn send(&mut self, buffer: &[u8]) -> Result<(), ()> {
                 burn();
+                if self.fail_sends {
+                    self.send_failures += 1;
+                    return Err(());
+                }
                 self.out.push(buffer.to_vec());
                 Ok(())
             }
@@ -132,39 +140,39 @@ macro_rules! impl_proto {
             fn connect(c: &mut Self::Conn, cb: &mut SimCb) {
                 match c.connect(cb) {
                     Ok(()) => {}
-                    Err(e) => match e {},
+                    Err(()) => {}
                 }
             }
             fn disconnect(c: &mut Self::Conn, cb: &mut SimCb, reason: &[u8]) {
                 match c.disconnect(cb, reason) {
                     Ok(()) => {}
-                    Err(e) => match e {},
+                    Err(()) => {}
                 }
             }
             fn send(c: &mut Self::Conn, cb: &mut SimCb, data: &[u8], vital: bool) -> SendResult {
                 match c.send(cb, data, vital) {
                     Ok(()) => SendResult::Ok,
                     Err($m::Error::TooLongData) => SendResult::TooLong,
-                    Err($m::Error::Callback(e)) => match e {},
+                    Err($m::Error::Callback(())) => SendResult::Ok, // the chunk is queued even if flushing the previous packet failed
                 }
             }
             fn send_connless(c: &mut Self::Conn, cb: &mut SimCb, data: &[u8]) -> SendResult {
                 match c.send_connless(cb, data) {
                     Ok(()) => SendResult::Ok,
                     Err($m::Error::TooLongData) => SendResult::TooLong,
-                    Err($m::Error::Callback(e)) => match e {},
+                    Err($m::Error::Callback(())) => SendResult::TooLong, // nothing went out
                 }
             }
             fn flush(c: &mut Self::Conn, cb: &mut SimCb) {
                 match c.flush(cb) {
                     Ok(()) => {}
-                    Err(e) => match e {},
+                    Err(()) => {}
                 }
             }
             fn tick(c: &mut Self::Conn, cb: &mut SimCb) {
                 match c.tick(cb) {
                     Ok(()) => {}
-                    Err(e) => match e {},
+                    Err(()) => {}
                 }
             }
             fn needs_tick(c: &Self::Conn) -> Timeout {
@@ -178,7 +186,7 @@ macro_rules! impl_proto {
                     let (iter, res) = c.feed(cb, &mut warn, data, &mut buf[..]);
                     match res {
                         Ok(()) => {}
-                        Err(e) => match e {},
+                        Err(()) => {}
                     }
                     for e in iter {
                         burn();
@@ -230,6 +238,8 @@ pub enum Op {
     SendConnless { side: u8, len: u16 },
     /// both endpoints back to unconnected (if possible), network cleared: a new session
     Reset,
+    /// fault injection: the send callback of `side` fails from now on / works again
+    FailSends { side: u8, on: bool },
 }
 
 pub const DT_US: [u64; 10] = [
@@ -729,6 +739,10 @@ impl<P: Proto> Sim<P> {
                 }
                 Ok(true)
             }
+            Op::FailSends { side, on } => {
+                self.cb[side as usize & 1].fail_sends = on;
+                Ok(true)
+            }
             Op::Reset => {
                 let ok = |s: &str| s == "Disconnected" || s == "Unconnected";
                 if !(ok(self.state(0)) && ok(self.state(1))) || !self.connect_called {
@@ -784,6 +798,9 @@ impl<P: Proto> Sim<P> {
     /// side ticks if its reported deadline has passed, otherwise the clock jumps to the earliest
     /// deadline. Returns the number of rounds used, or None if not quiescent after `max_rounds`.
     pub fn fair_suffix(&mut self, max_rounds: usize) -> Result<Option<usize>, Failure> {
+        // the environment stops misbehaving: sends work again
+        self.cb[0].fail_sends = false;
+        self.cb[1].fail_sends = false;
         for round in 0..max_rounds {
             if self.quiescent() {
                 return Ok(Some(round));
@@ -914,6 +931,7 @@ pub fn op_strategy(max_len: usize) -> BoxedStrategy<Op> {
         2 => (0u8..2, any::<u16>()).prop_map(|(dir, k)| Op::Dup { dir, k }),
         3 => side.clone().prop_map(|dir| Op::DeliverAll { dir }),
         1 => (0u8..2, prop_oneof![3 => 1u16..40, 1 => 200u16..300]).prop_map(|(side, n)| Op::Burst { side, n }),
+        1 => (0u8..2, prop::bool::weighted(0.35)).prop_map(|(side, on)| Op::FailSends { side, on }),
     ]
     .boxed()
 }
